@@ -705,6 +705,7 @@ func init() {
 		defer loadQuiescence(c, "C15")
 		// `grog run` (a build + the execution of the binary output) in lock-step under both modes
 		defer c15RunCommand(c)
+		defer c15Triangle(c)
 		// second part: taint / no-cache / failing output check / failures under minimal mode
 		defer chainCheck("C15", []string{"C15:"}, 4, 5, func(e *chainEngine, thorough bool) {
 			e.relabelMinimal = true
